@@ -107,8 +107,12 @@ def generic_alpha(rep, a):
         Xr, Yr = Xr - Xr.mean(0), Yr - Yr.mean(0)
         mkx = lambda A: xr.DataArray(A, dims=("time", "x"), coords=dict(time=t, x=np.arange(A.shape[1])))  # noqa: E731
         mky = lambda A: xr.DataArray(A, dims=("time", "y"), coords=dict(time=t, y=np.arange(A.shape[1])))  # noqa: E731
-        for name, kw in (("MCA", {}), ("CCA", {}), ("CPCCA", dict(alpha=[0.5, 0.2]))):
-            H = getattr(xe.cross, "Hilbert" + name)(n_modes=2, use_pca=False, padding="none", solver="full", **kw).fit(mkx(Xr), mky(Yr), "time")
+        for name, kw, pca in (("MCA", {}, False), ("CCA", {}, False), ("CPCCA", dict(alpha=[0.5, 0.2]), False), ("RDA", {}, False),
+                              ("CCA", {}, True), ("CPCCA", dict(alpha=[0.5, 0.2]), True), ("RDA", {}, True), ("MCA", {}, True)):
+            # with pca=True every principal component is kept: the Hilbert transform acts along the samples and commutes
+            # with the (real, linear) change of basis, so the analysis must be the one without pre-reduction
+            pk = dict(use_pca=True, n_pca_modes="all") if pca else dict(use_pca=False)
+            H = getattr(xe.cross, "Hilbert" + name)(n_modes=2, padding="none", solver="full", **pk, **kw).fit(mkx(Xr), mky(Yr), "time")
             import warnings as _w
             with _w.catch_warnings():
                 _w.simplefilter("ignore")
@@ -116,8 +120,8 @@ def generic_alpha(rep, a):
             a_, b_ = H.data["singular_values"].values, Cm.data["singular_values"].values
             nh += 1
             if not np.allclose(a_, b_, rtol=1e-8):
-                found.append(("C09", "C09_HilbertIsComplexOfAnalyticSignal", f"Hilbert{name}: singular values {a_.tolist()} differ from Complex{name} of the analytic signals {b_.tolist()}",
-                              dict(kind="hilbert", fam=name, n=n)))
+                found.append(("C09", "C09_HilbertIsComplexOfAnalyticSignal", f"Hilbert{name}{' (all principal components kept)' if pca else ''}: singular values {a_.tolist()} differ from Complex{name} of the analytic signals {b_.tolist()}",
+                              dict(kind="hilbert", fam=name, n=n, pca=pca)))
             s1 = H.data["scores1"].transpose(H.sample_name, "mode").values
             s2 = H.data["scores2"].transpose(H.sample_name, "mode").values
             Cs = s1.conj().T @ s2 / (n - 1)
